@@ -1198,6 +1198,12 @@ class PE(object):
       if isinstance(b, NArr) and (is_num(a) or isinstance(a, bool)):
         return NArr(self.binop(op, a, y) for y in b)
     # python values
+    if isinstance(a, list) and isinstance(b, list) and isinstance(
+        op, (ast.BitOr, ast.BitAnd)):
+      # sets are modelled as duplicate-free lists
+      if isinstance(op, ast.BitOr):
+        return list(a) + [e for e in b if e not in a]
+      return [e for e in a if e in b]
     if isinstance(op, ast.Add):
       if isinstance(a, str) and isinstance(b, str):
         return a + b
